@@ -86,6 +86,26 @@ def ghost_specs():
     S["datalen"] = GhostSpec("datalen", lambda e, st, a: VInt(DLEN(smt.som(e.to_int(a[0])))))
     S["csum"] = GhostSpec("csum", lambda e, st, a: VInt(csum_of(e, st, e.to_int(a[0]))))
     S["Dbyte"] = GhostSpec("Dbyte", lambda e, st, a: VBV(z3.Select(D, smt.som(e.to_int(a[0])))))
+    def xs(e, st, a):
+        nb = smt.conc_int(e.to_int(a[0]))
+        order = a[1].s
+        i = smt.som(e.to_int(a[2]))
+        if nb == 8:
+            return VBV(z3.Select(D, i))
+        if nb == 16:
+            return VReal(DEC16(z3.Select(D, smt.som(2 * i)), z3.Select(D, smt.som(2 * i + 1))))
+        if nb == 32:
+            return VReal(DEC32(*[z3.Select(D, smt.som(4 * i + k)) for k in range(4)]))
+        f = 8 // nb
+        byte = z3.Select(D, i / f)
+        j = i % f
+        res = None
+        for jj in reversed(range(f)):
+            sh = (f - 1 - jj) * nb if order == "big" else jj * nb
+            fld = z3.ZeroExt(8 - nb, z3.Extract(sh + nb - 1, sh, byte))
+            res = fld if res is None else z3.If(j == jj, fld, res)
+        return VBV(res)
+    S["xs"] = GhostSpec("xs", xs)
     S["dec16"] = GhostSpec("dec16", lambda e, st, a: VReal(DEC16(a[0].t, a[1].t)))
     S["dec32"] = GhostSpec("dec32", lambda e, st, a: VReal(DEC32(a[0].t, a[1].t, a[2].t, a[3].t)))
     return S
